@@ -91,6 +91,10 @@ fn main() {
             rv::props::c18::lone_main();
             true
         }
+        "sched" => {
+            rv::props::c18::sched_main();
+            true
+        }
         "fuzzcase" => {
             // rv fuzzcase <hist|kernel> <file>: decode a fuzzer input into the JSON case it stands for
             let file = args.get(3).cloned().unwrap_or_else(|| usage());
